@@ -323,6 +323,11 @@ def oracle(c, o):
             return "property %s should be copied (%r), result has %r" % (k, v, od.get(k, "__missing__"))
         if dec == "skip" and k in od and k not in tmpl:
             return "SSC-only property %s should be left out" % k
+    # "templates respected": the result holds the template's properties in the template's order, then the copied source properties it lacked, and nothing else
+    tmpl_keys = [k for k, v in (tso[0] if (tso and tso[0]) else G.props_obs(SMSimfile.blank()))]
+    want_keys = tmpl_keys + [k for k, v in sf if k not in tmpl_keys and decide(SF_INVALID, c["beh"], k, v) == "copy"]
+    if [k for k, v in props] != want_keys:
+        return "the result's properties are %s, the template's followed by the copied source properties would be %s" % ([k for k, v in props][:14], want_keys[:14])
     ntmpl = len(tso[1]) if (tso and tso[0]) else 0
     if len(out_charts) != ntmpl + len(charts):
         return "%d charts, expected %d" % (len(out_charts), ntmpl + len(charts))
